@@ -126,9 +126,12 @@ Record aobj := { a_hdr : list byte; a_category : Z; a_detail : list byte; a_deta
 Definition create_action (noack : bool) a1 a2 a3 (category : Z) : aobj :=
   {| a_hdr := mgmt_header (if noack then c_SUBTYPE_ACTION_NOACK else c_SUBTYPE_ACTION) a1 a2 a3;
      a_category := category mod 256; a_detail := []; a_detail_len := 0 |}.
-(* libwifi_add_action_detail(detail, data, data_len) -> new object, returned running length *)
+(* libwifi_add_action_detail(detail, data, data_len) -> new object, returned running length (or -EINVAL
+   when the one-octet length would overflow) *)
 Definition add_action_detail (a : aobj) (data : list byte) : aobj * Z :=
-  let l := (a_detail_len a + zlen data) mod 256 in
+  if zlen data =? 0 then (a, a_detail_len a) else
+  if 255 <? a_detail_len a + zlen data then (a, - EINVAL) else
+  let l := a_detail_len a + zlen data in
   ({| a_hdr := a_hdr a; a_category := a_category a; a_detail := a_detail a ++ data; a_detail_len := l |}, l).
 Definition a_length (a : aobj) : Z := zlen (a_hdr a) + 1 + a_detail_len a.
 Definition a_dump (a : aobj) (buf_len : Z) : outcome (list byte) :=
